@@ -248,12 +248,15 @@ def field_values(eng: Engine, ctx: Ctx, rid1: str, rid2: str, rid3: str, rid5: s
             return (diff == inb and op == "<=") or (diff == -inb and op == ">=") or (diff == inb - 1 and op == "<") or (diff == -inb + 1 and op == ">")
 
         guards_ok = all(bounds_literal(c, pol) for c, pol in (valsets[0].guards if len(valsets) == 1 else ()))
+        # (the linear guard list keeps only what every way to the store has in common: a store under `a or b` shows in the path condition alone)
+        guards_ok = guards_ok and all(bounds_literal(c, pol) for conj in (valsets[0].dnf if len(valsets) == 1 else ()) for c, pol in drop_exit_facts(conj, valsets[0].loops))
         if len(valsets) != 1 or not guards_ok:
             fail(rid2, key, "one unconditional store of the field value", "exactly one setattr(self, <name>, value), guarded at most by an in-bounds test", f"{len(valsets)} store(s)" + (" (conditional)" if valsets and valsets[0].guards else ""), node)
             continue
         V = valsets[0].term[3][2]
         # ---- D5 offset advance
-        if len(rets) != 1 or not all(bounds_literal(c, pol) for c, pol in drop_exit_facts(rets[0].guards, rets[0].loops)):
+        if len(rets) != 1 or not all(bounds_literal(c, pol) for c, pol in drop_exit_facts(rets[0].guards, rets[0].loops)) \
+                or not all(bounds_literal(c, pol) for conj in rets[0].dnf for c, pol in drop_exit_facts(conj, rets[0].loops)):
             fail(rid5, key, "single unconditional return", "return offset + w", f"{len(rets)} return(s)", node)
         else:
             rp = to_poly(rets[0].term, symn)
